@@ -100,6 +100,12 @@ func genSequence(seed uint64, n int) []interface{} {
 	var seq []interface{}
 	var earlier []*Inner
 	var slices []interface{}
+	if seed%20 == 3 && n >= 2 {
+		// a class-heavy stream: more than 16 classes defined by the first value, so that later values
+		// use class indexes beyond the one-octet instance tags
+		seq = append(seq, genValue(reflect.TypeOf(Many{}), seed, 400, 20), genValue(reflect.TypeOf(Many{}), seed+1, 400, 20))
+		n -= 2
+	}
 	for i := 0; i < n; i++ {
 		t := zooTypes[r.intn(len(zooTypes))]
 		if t.Kind() == reflect.Map { // top-level unnamed maps lose their type (known finding of C01): keep them out of sequences
